@@ -362,7 +362,7 @@ impl Ctx {
             stats.nontrivial(1);
             stats.nontrivial(2);
             stats.samples.push(r.case.clone());
-            match check(&case, &mut stats) {
+            match guarded(&check, &case, &mut stats) {
                 Ok(()) => println!("replay: case passes"),
                 Err(f) => {
                     // strict mode: a replayed failure is always reported
@@ -387,7 +387,7 @@ impl Ctx {
             match serde_json::from_value::<C>(r.case.clone()) {
                 Ok(case) => {
                     stats.count("regress_replayed");
-                    if let Err(f) = check(&case, &mut stats) {
+                    if let Err(f) = guarded(&check, &case, &mut stats) {
                         if !self.tolerate_known(&f, &mut stats) {
                             println!("regression replay {} fails", path.display());
                             self.record_violation(name, &case, &f);
@@ -424,7 +424,7 @@ impl Ctx {
         let result = runner.run(&strategy, |case| {
             let mut guard = cell.borrow_mut();
             let (ctx, stats) = &mut *guard;
-            match check(&case, stats) {
+            match guarded(&check, &case, stats) {
                 Ok(()) => Ok(()),
                 Err(f) => {
                     if ctx.tolerate_known(&f, stats) {
@@ -446,7 +446,7 @@ impl Ctx {
                 // re-run on the shrunk case to get the exact failure
                 let mut tmp = Stats::default();
                 tmp.frozen = true;
-                let f = match check(&shrunk, &mut tmp) {
+                let f = match guarded(&check, &shrunk, &mut tmp) {
                     Err(f) => f,
                     Ok(()) => Failure::new(
                         "nondeterministic",
@@ -502,7 +502,7 @@ impl Ctx {
         for (path, r) in self.regress_cases(name) {
             if let Ok(case) = serde_json::from_value::<C>(r.case.clone()) {
                 stats.count("regress_replayed");
-                if let Err(f) = check(&case, &mut stats) {
+                if let Err(f) = guarded(&check, &case, &mut stats) {
                     if !self.tolerate_known(&f, &mut stats) && reported.insert(f.key.clone()) {
                         println!("regression replay {} fails", path.display());
                         self.record_violation(name, &case, &f);
@@ -511,7 +511,7 @@ impl Ctx {
             }
         }
         for case in cases {
-            if let Err(f) = check(&case, &mut stats) {
+            if let Err(f) = guarded(&check, &case, &mut stats) {
                 if !self.tolerate_known(&f, &mut stats) {
                     // report at most one violation per class signature, and
                     // stop after a handful of classes
@@ -735,6 +735,25 @@ pub fn install_panic_hook() {
 
 /// Run `f`, catching a panic and returning its message; the panic hook is
 /// silenced for the duration on this thread.
+/// Run a check closure so that a panic inside it (outside any `catch_quiet`, i.e. in harness code
+/// that met something it did not expect from the code under test) becomes a reported failure
+/// instead of killing the process.
+pub fn guarded<C>(check: &impl Fn(&C, &mut Stats) -> Result<(), Failure>, case: &C, stats: &mut Stats) -> Result<(), Failure> {
+    match std::panic::catch_unwind(std::panic::AssertUnwindSafe(|| check(case, stats))) {
+        Ok(r) => r,
+        Err(e) => {
+            let msg = if let Some(s) = e.downcast_ref::<&str>() {
+                s.to_string()
+            } else if let Some(s) = e.downcast_ref::<String>() {
+                s.clone()
+            } else {
+                "<non-string panic>".to_string()
+            };
+            Err(Failure::new("check-panicked", format!("the check itself panicked on this case: {}", msg)))
+        }
+    }
+}
+
 pub fn catch_quiet<T>(f: impl FnOnce() -> T) -> Result<T, String> {
     QUIET_PANICS.with(|q| q.set(q.get() + 1));
     let r = std::panic::catch_unwind(std::panic::AssertUnwindSafe(f));
